@@ -15,7 +15,8 @@ from vf.space import PO, POK, VA, KWO, VK, show, shape_of, role_consistent
 
 PROP = 'C10'
 E = inspect.Parameter.empty
-DEFAULTS = (1, 2, None)
+# 2.5 compiled twice gives two equal objects that are not the same object (small ints and None are shared)
+DEFAULTS = (1, 2.5, None)
 ANNS = (E, 'A', 'B')
 _CACHE = {}
 
@@ -75,8 +76,26 @@ def fold_ann(values):
     return acc
 
 
+def order_problem(inputs, res):
+    """Positional parameters keep the relative order they have in each input (by name)."""
+    rnames = [p.name for p in positional(res)]
+    for s in inputs:
+        inames = [p.name for p in positional(s)]
+        if len(set(inames)) != len(inames) or len(set(rnames)) != len(rnames):
+            continue
+        common_r = [n for n in rnames if n in inames]
+        common_i = [n for n in inames if n in rnames]
+        if common_r != common_i:
+            return {'input': str(s), 'order_in_input': common_i, 'order_in_result': common_r}
+    return None
+
+
 def check_merge(inputs, res, viol, by_name=False):
     pos = positional(res)
+    bad = order_problem(inputs, res)
+    if bad:
+        viol('positional-order', bad, {'rule': 'relative-order'})
+        return
     for p in res.parameters.values():
         if p.kind in (p.VAR_POSITIONAL, p.VAR_KEYWORD):
             continue
@@ -114,6 +133,10 @@ def check_merge(inputs, res, viol, by_name=False):
 
 def check_by_name(outer, inner, res, viol, outer_first=True):
     """embed / forwards / mask on disjointly named inputs: every result parameter is outer's or inner's by name."""
+    bad = order_problem([x for x in (outer, inner) if x is not None], res)
+    if bad:
+        viol('positional-order', bad, {'rule': 'relative-order'})
+        return
     seen_inner = {'pos': False, 'kwo': False}
     params = list(res.parameters.values())
     for i, p in enumerate(params):
